@@ -596,4 +596,178 @@ theorem loadData_writeData {f : Fmt} (hf : Readable f) (s : Sys) (style : String
     rw [fpLoopA_dataSigs hf lf _ p hne hr hv]
     simp only [Option.getD_some]
 
+
+/-! ### generic tables -/
+
+/-- **load ∘ dump for tables**: the text `table.dump` writes (with or without the header line of column names) is
+    read back as exactly the written rows; the new system has one atom per row. -/
+theorem loadTable_writeTable {f : Fmt} (hf : Readable f) (s : Sys) (cols : List ColSpec) (u : Units) (header : Bool)
+    (text : List Char) (hw : writeTable s cols u f header = .ok text)
+    (hnames : ∀ t ∈ (cols.map fun c => c.names.map strTok).flatten, CleanTok t)
+    (hn0 : (cols.map fun c => c.names.map strTok).flatten ≠ []) :
+    ∃ rows, tableRows s u (seqIds s.natoms) s.pos cols [] = .ok rows ∧
+      ((∀ r ∈ rows, r ≠ []) → ∀ box pcols,
+        loadTable text box pcols header =
+          tableLoad (Loaded.init box ⟨true, true, true⟩ rows.length [] []) (rowsDoc f rows) pcols false) := by
+  unfold writeTable writeTableDoc at hw
+  cases hr : tableRows s u (seqIds s.natoms) s.pos cols [] with
+  | error e => simp [hr, bind, Except.bind, Except.map] at hw
+  | ok rows =>
+    simp only [hr, bind, Except.bind, pure, Except.pure, Except.map, Except.ok.injEq] at hw
+    refine ⟨rows, rfl, ?_⟩
+    intro hrows box pcols
+    subst hw
+    unfold loadTable selectRows
+    simp only [List.drop_zero]
+    have hclean : CleanDoc ((if header = true then [(cols.map fun c => c.names.map strTok).flatten] else []) ++ rowsDoc f rows) := by
+      apply cleanDoc_append _ _ _ (cleanDoc_rowsDoc hf rows)
+      intro l hl
+      split at hl
+      · simp only [List.mem_cons, List.not_mem_nil, or_false] at hl; subst hl; exact hnames
+      · cases hl
+    rw [rowsOfN_render _ hclean]
+    have hne : ∀ l ∈ rowsDoc f rows, l ≠ [] := by
+      intro l hl
+      simp only [rowsDoc, List.mem_map] at hl
+      obtain ⟨r, hr', rfl⟩ := hl
+      simpa using hrows r hr'
+    have hfilt : ((if header = true then [(cols.map fun c => c.names.map strTok).flatten] else []) ++ rowsDoc f rows).filter
+        (fun l => !l.isEmpty) = (if header = true then [(cols.map fun c => c.names.map strTok).flatten] else []) ++ rowsDoc f rows := by
+      apply List.filter_eq_self.mpr
+      intro l hl
+      rcases List.mem_append.mp hl with h | h
+      · split at h
+        · simp only [List.mem_cons, List.not_mem_nil, or_false] at h; subst h
+          cases hx : (cols.map fun c => c.names.map strTok).flatten with
+          | nil => exact absurd hx hn0
+          | cons _ _ => rfl
+        · cases h
+      · cases l with
+        | nil => exact absurd rfl (hne [] h)
+        | cons _ _ => rfl
+    rw [hfilt]
+    cases header with
+    | true => simp [rowsDoc]
+    | false => simp [rowsDoc]
+
+
+/-! ### the bounding-box inversion of the loader is the one of the LAMMPS manual (C07's independent parser) -/
+
+theorem tiltLo_eq_min4 (xy xz : ℚ) : tiltLo xy xz = min4 0 xy xz (xy + xz) := rfl
+theorem tiltHi_eq_max4 (xy xz : ℚ) : tiltHi xy xz = max4 0 xy xz (xy + xz) := rfl
+
+theorem minR0_eq_min4 (yz : ℚ) : minR 0 yz = min4 0 yz 0 0 := by
+  unfold minR min4
+  simp only []
+  split_ifs <;> first | rfl | linarith
+
+theorem maxR0_eq_max4 (yz : ℚ) : maxR 0 yz = max4 0 yz 0 0 := by
+  unfold maxR max4
+  simp only []
+  split_ifs <;> first | rfl | linarith
+
+/-- **load_eq_independent_parse (dump-file bounds)**: in file units the lo/hi values the loader derives from the
+    printed bounding box and tilts are those of `C07.hiLoOfBBox`, the inverse map of the LAMMPS manual used by the
+    independent parser. -/
+theorem dump_bounds_eq_independent (f : Fmt) (n : Nat) (pbc : V3 Bool) (bb : BBox) (xy xz yz : ℚ) (names : Line) :
+    let st := triState f none n pbc bb xy xz yz names
+    let h := hiLoOfBBox ⟨fmtVal f bb.xlo, fmtVal f bb.xhi, fmtVal f bb.ylo, fmtVal f bb.yhi, fmtVal f bb.zlo,
+      fmtVal f bb.zhi⟩ (fmtVal f xy) (fmtVal f xz) (fmtVal f yz)
+    st.xlo = some h.xlo ∧ st.xhi = some h.xhi ∧ st.ylo = some h.ylo ∧ st.yhi = some h.yhi ∧
+    st.zlo = some h.zlo ∧ st.zhi = some h.zhi ∧ st.xy = h.xy ∧ st.xz = h.xz ∧ st.yz = h.yz := by
+  simp [triState, hiLoOfBBox, mulBy, tiltLo_eq_min4, tiltHi_eq_max4, minR0_eq_min4, maxR0_eq_max4]
+
+/-- undoing the unit conversion: a value written in file units (`q / L`), printed with `n` decimals and multiplied
+    back by the unit factor differs from the original by at most half a unit of the last place times the factor. -/
+theorem unit_roundtrip_error (q L : ℚ) (n : Nat) (hL : L ≠ 0) :
+    |fixedVal (q / L) n * L - q| ≤ |L| / (2 * 10 ^ n) := by
+  have h := fixedVal_error (q / L) n
+  have e : fixedVal (q / L) n * L - q = (fixedVal (q / L) n - q / L) * L := by field_simp
+  rw [e, abs_mul]
+  have hp : (0 : ℚ) ≤ |L| := abs_nonneg L
+  calc |fixedVal (q / L) n - q / L| * |L| ≤ 1 / (2 * 10 ^ n) * |L| := mul_le_mul_of_nonneg_right h hp
+    _ = |L| / (2 * 10 ^ n) := by ring
+
+
+/-! ### the `Atoms` table with image flags under a permutation of its rows -/
+
+theorem readFlagRow_error (ncols : Nat) (r : Line) (e : String) (h : readFlagRow ncols r = .error e) : e = "value" := by
+  unfold readFlagRow at h
+  split at h
+  · rename_i idt a b c _ _
+    unfold pyInt at h
+    cases h1 : parseInt? idt <;> cases h2 : parseInt? a <;> cases h3 : parseInt? b <;> cases h4 : parseInt? c <;>
+      simp [h1, h2, h3, h4, bind, Except.bind, pure, Except.pure, throw, throwThe, MonadExceptOf.throw] at h <;>
+      exact h.symm
+  · simp [throw, throwThe, MonadExceptOf.throw] at h; exact h.symm
+
+theorem uniform_perm {rows₁ rows₂ : List Line} (hp : rows₁.Perm rows₂) :
+    (rows₁.all fun r => r.length = (rows₁.headD []).length) = (rows₂.all fun r => r.length = (rows₂.headD []).length) := by
+  have key : ∀ {a b : List Line}, a.Perm b → (a.all fun r => r.length = (a.headD []).length) = true →
+      (b.all fun r => r.length = (b.headD []).length) = true := by
+    intro a b hab ha
+    cases b with
+    | nil => rfl
+    | cons b0 bs =>
+      apply List.all_eq_true.mpr
+      intro r hr
+      have hall := List.all_eq_true.mp ha
+      have h1 := hall r (hab.symm.subset hr)
+      have h2 := hall b0 (hab.symm.subset List.mem_cons_self)
+      simp only [decide_eq_true_eq] at h1 h2 ⊢
+      simp only [List.headD_cons]
+      omega
+  cases h1 : (rows₁.all fun r => r.length = (rows₁.headD []).length) with
+  | true => exact (key hp h1).symm
+  | false =>
+    cases h2 : (rows₂.all fun r => r.length = (rows₂.headD []).length) with
+    | false => rfl
+    | true => rw [key hp.symm h2] at h1; cases h1
+
+/-- the image-flag shifts do not depend on the order of the atom lines (they are ordered by atom id, like the table). -/
+theorem applyFlags_perm (s : Loaded) {rows₁ rows₂ : List Line} (ncols : Nat) (hp : rows₁.Perm rows₂)
+    (hd : ∀ fl, rows₁.mapM (readFlagRow ncols) = .ok fl → (fl.map (·.1)).Nodup) :
+    applyFlags s rows₁ ncols = applyFlags s rows₂ ncols := by
+  unfold applyFlags
+  have he : rows₁.isEmpty = rows₂.isEmpty := by
+    cases rows₁ with
+    | nil => rw [hp.symm.eq_nil]
+    | cons a as =>
+      cases rows₂ with
+      | nil => exact absurd hp.eq_nil (by simp)
+      | cons _ _ => rfl
+  rw [he, uniform_perm hp]
+  obtain ⟨hok, herr⟩ := mapM_perm (readFlagRow ncols) "value" (readFlagRow_error ncols) hp
+  cases h1 : rows₁.mapM (readFlagRow ncols) with
+  | error e => rw [herr e h1]
+  | ok fl₁ =>
+    obtain ⟨fl₂, h2, hperm⟩ := hok fl₁ h1
+    rw [h2]
+    simp only [bind, Except.bind]
+    rw [sortBy_eq_of_perm (·.1) hperm (hd fl₁ h1)]
+
+/-- **load_perm_invariant (Atoms section)**: `read_atoms` — the table and the image-flag shifts — gives the same system
+    for every order of the atom lines, when the ids are distinct. -/
+theorem readAtoms_perm {rows₁ rows₂ : List Line} (atomsColumns : Nat) (s : Loaded) (style : String) (u : Units)
+    (hp : rows₁.Perm rows₂)
+    (hid : ∀ cols, lookupCols Gen.LoadStyles.atomStyles style u = .ok cols → idIndex cols = some 0)
+    (hd : ∀ cols t, lookupCols Gen.LoadStyles.atomStyles style u = .ok cols →
+      readTable rows₁ (colsWidth cols) true = .ok t → (t.map (rowKey 0)).Nodup)
+    (hdf : ∀ cols fl, lookupCols Gen.LoadStyles.atomStyles style u = .ok cols →
+      rows₁.mapM (readFlagRow (colsWidth cols)) = .ok fl → (fl.map (·.1)).Nodup) :
+    readAtoms rows₁ atomsColumns s style u = readAtoms rows₂ atomsColumns s style u := by
+  unfold readAtoms
+  cases hc : lookupCols Gen.LoadStyles.atomStyles style u with
+  | error e => rfl
+  | ok cols =>
+    simp only [bind, Except.bind]
+    rw [tableLoad_perm s cols true 0 hp (hid cols hc) (hd cols · hc)]
+    cases ht : tableLoad s rows₂ cols true with
+    | error e => rfl
+    | ok s1 =>
+      simp only []
+      split
+      · exact applyFlags_perm s1 _ hp (hdf cols · hc)
+      · rfl
+
 end Atomman.C08
